@@ -97,9 +97,8 @@ def explicit_ulong_member(t, env, tagdefault, seen=()):
     return False
 
 def known_region(st, env, tn, syn, opts):
-    if syn in ("der", "descr") and WIDE in opts and explicit_ulong_member(env[tn], env, env.get("__tagdefault__")):
-        st.skipped["F77"] += 1
-        return True
+    # (former region F77 — `[n] EXPLICIT INTEGER (lb..MAX)` tagged twice natively, once under -fwide-types — is repaired
+    #  together with F49 and compared like everything else)
     if syn == "xer" and WIDE in opts and set_default_zero(env[tn], env):
         st.skipped["F76"] += 1
         return True
